@@ -40,17 +40,107 @@ def run(ctx):
     _dispatch(ctx, repo, folder, m, sweep)
     _termination(ctx, repo, folder, m, sweep)
     _payloads(ctx, repo, folder, m)
-    _offsets(ctx, m)
+    _offsets(ctx, m, repo, folder)
 
 
 # --------------------------------------------------------------------------- (a)
+DECODERS = ("get_instruction", "get_instruction_payload", "get_optimized_instruction")
+
+
+class _Stop(Exception):
+    def __init__(self, value):
+        self.value = value
+
+
+class _Decoded:
+    """marker for the object a decoder returns in the abstract run"""
+
+    def __init__(self, kind, op, length):
+        self.kind, self.op, self.length = kind, op, length
+
+    def __repr__(self):
+        return "<decoded %s %s>" % (self.kind, self.op)
+
+
+def _sweep_helpers(m, sweep):
+    """functions the sweep may delegate to: the other functions of its class and private module-level helpers"""
+    names = set()
+    if sweep.cls is not None:
+        for c in sweep.cls.mro():
+            for f in c.methods.values():
+                names.add(f.qualname)
+    for q, f in m.functions.items():
+        if "." not in q and q.startswith("_") and q not in DECODERS:
+            names.add(q)
+    names.discard(sweep.qualname)
+    return names
+
+
+def _run_sweep(repo, folder, m, sweep, unit, odex, size, buflen, stop_at_first, length_of):
+    """abstractly execute get_instructions; -> list of (asg-independent) outcomes, one per path:
+       ('yield', [decoded...]) | ('raise', exc) ; decoders are hooked, the first code unit is `unit` at every position"""
+    helpers = _sweep_helpers(m, sweep)
+
+    def run(asg):
+        routed = []
+
+        def func_hook(it, target, args, kwargs, e, func):
+            if target.qualname in DECODERS:
+                a = [x.value() if isinstance(x, Bits) and x.is_const() else x for x in args]
+                if target.qualname == "get_instruction":
+                    d = _Decoded("insn", a[1] if len(a) > 1 else None, length_of("insn", a[1] if len(a) > 1 else None))
+                elif target.qualname == "get_instruction_payload":
+                    d = _Decoded("payload", a[0] if a else None, length_of("payload", a[0] if a else None))
+                else:
+                    d = _Decoded("optimized", a[1] if len(a) > 1 else None, length_of("optimized", None))
+                routed.append(d)
+                return d
+            return NotImplemented
+
+        def method_hook(it, recv, name, args, kwargs, e, func):
+            if isinstance(recv, _Decoded):
+                if name == "get_length":
+                    return recv.length
+                if name == "get_op_value" and isinstance(recv.op, int):
+                    return recv.op
+                return Sym("decoded." + name)
+            if name == "get_odex_format":
+                return odex
+            from ..absint import PackerV
+            if isinstance(recv, PackerV) and name == "unpack" and recv.fmt.lstrip("<=@") == "H":
+                return (unit,)
+            return NotImplemented
+
+        yielded = []
+
+        def yield_hook(it, v, e, func):
+            if func is sweep or func.qualname in helpers:
+                yielded.append(v)
+                if stop_at_first:
+                    raise _Stop(v)
+
+        it = Interp(repo, folder, asg=dict(asg), hooks={"func": func_hook, "method": method_hook, "yield": yield_hook, "inline_funcs": helpers})
+        it.max_split = 0
+        buf = BufV("insn", 0, buflen)
+        try:
+            it.call_function(sweep, [Sym("cm"), size, buf, Sym("idx") if stop_at_first else 0])
+        except _Stop:
+            pass
+        except Raised as r:
+            r.final_asg = dict(it.asg)
+            raise
+        return yielded, routed, dict(it.asg)
+
+    outs = []
+    for asg, r in explore(run):
+        if isinstance(r, Raised):
+            outs.append(("raise", r.exc, r, getattr(r, "final_asg", asg)))
+        else:
+            outs.append(("yield", r[0], r[1], r[2]))
+    return outs
+
+
 def _dispatch(ctx, repo, folder, m, sweep):
-    loops = [n for n in walk_no_nested(sweep.node) if isinstance(n, ast.While)]
-    ctx.require(len(loops) == 1, "LinearSweepAlgorithm.get_instructions: expected one sweep loop")
-    loop = loops[0]
-    tries = [n for n in loop.body if isinstance(n, ast.Try)]
-    ctx.require(len(tries) == 1, "sweep loop: the dispatch try-block was not found")
-    tr = tries[0]
     payload_tbl = folder.global_(m, "DALVIK_OPCODES_PAYLOAD")
     opt_tbl = folder.global_(m, "DALVIK_OPCODES_OPTIMIZED")
     ctx.require(isinstance(payload_tbl, dict) and isinstance(opt_tbl, dict), "payload/optimized tables do not fold")
@@ -62,28 +152,14 @@ def _dispatch(ctx, repo, folder, m, sweep):
         ctx.check("payload-table", "0x%04x" % k, exp_cls.get(k) == cn, "DALVIK_OPCODES_PAYLOAD", "0x%04x: %s" % (k, cn),
                   "payload 0x%04x must be parsed by %s, table says %s" % (k, exp_cls.get(k), cn), file=m.relpath)
 
-    # which variable holds the unit? the name unpacked from packer['H'] in the loop body
-    unit_var = None
-    for n in loop.body:
-        if isinstance(n, ast.Assign) and "unpack" in ast.unparse(n.value):
-            t = n.targets[0]
-            if isinstance(t, ast.Tuple) and len(t.elts) == 1 and isinstance(t.elts[0], ast.Name):
-                unit_var = t.elts[0].id
-            elif isinstance(t, ast.Name):
-                unit_var = t.id
-            src = ast.unparse(n.value)
-            ctx.check("unit-read", "first code unit is insn[idx:idx+2] as 'H'", "'H'" in src or '"H"' in src, sweep, n, "the first code unit is not read as an unsigned 16-bit value", node=n)
-    ctx.require(unit_var is not None, "sweep loop: the 16-bit unit read was not found")
-    odex_var = None
-    for n in walk_no_nested(sweep.node):
-        if isinstance(n, ast.Assign) and "get_odex_format" in ast.unparse(n.value) and isinstance(n.targets[0], ast.Name):
-            odex_var = n.targets[0].id
-
-    # classes of high bytes the code can distinguish: every constant in the function and every table key
+    # classes of high bytes the code can distinguish: every constant of the sweep (and of the helpers it
+    # delegates to) and every table key
     consts = {0, 0xFF, 0x100, 0xFFFF}
-    for n in ast.walk(sweep.node):
-        if isinstance(n, ast.Constant) and isinstance(n.value, int) and not isinstance(n.value, bool) and 0 <= n.value <= 0xFFFF:
-            consts.add(n.value)
+    roots = [sweep.node] + [m.functions[q].node for q in _sweep_helpers(m, sweep) if q in m.functions]
+    for r in roots:
+        for n in ast.walk(r):
+            if isinstance(n, ast.Constant) and isinstance(n.value, int) and not isinstance(n.value, bool) and 0 <= n.value <= 0xFFFF:
+                consts.add(n.value)
     consts.update(payload_tbl)
     consts.update(opt_tbl)
     his = sorted({c >> 8 for c in consts} | {(c >> 8) + 1 for c in consts if (c >> 8) < 0xFF} | {max((c >> 8) - 1, 0) for c in consts} | {0x7F, 0x80})
@@ -91,70 +167,59 @@ def _dispatch(ctx, repo, folder, m, sweep):
         his = list(range(256))
     ctx.extra["dispatch_high_bytes"] = ["0x%02x" % h for h in his]
 
-    calls = {}
+    LO = [("s", "u", i) for i in range(8)]
 
-    def call_hook(it, name, callee, args, kwargs, e, func):
-        if name in ("get_instruction", "get_instruction_payload", "get_optimized_instruction"):
-            return Sym("routed", name, *args)
-        return NotImplemented
-
-    def run_unit(unit, odex):
-        def r(asg):
-            it = Interp(repo, folder, asg=dict(asg), hooks={"call": call_hook})
-            it.max_split = 0
-            env = {"cm": Sym("cm"), "insn": BufV("insn"), "idx": Sym("idx"), "size": Sym("size"), "max_idx": Sym("max_idx"),
-                   unit_var: unit, "__func__": sweep}
-            if odex_var:
-                env[odex_var] = odex
-            it.exec_stmt(tr, env, sweep)
-            obj = env.get("obj")
-            for k, v in env.items():
-                if isinstance(v, Sym) and v.op == "routed":
-                    obj = v
-            return obj
-
-        outs = set()
-        for asg, obj in explore(r):
-            if isinstance(obj, Raised):
-                outs.add(("raise", obj.exc))
-            elif isinstance(obj, Sym) and obj.op == "routed":
-                a = list(obj.args[1:])
-                if obj.args[0] == "get_instruction":
-                    op = a[1]
-                    outs.add(("insn", op.value() if isinstance(op, Bits) and op.is_const() else (op if isinstance(op, int) else show(op))))
-                elif obj.args[0] == "get_instruction_payload":
-                    op = a[0]
-                    outs.add(("payload", op.value() if isinstance(op, Bits) and op.is_const() else (op if isinstance(op, int) else show(op))))
-                else:
-                    outs.add(("optimized", show(a[1])))
-            else:
-                outs.add(("none", show(obj)))
-        if len(outs) == 1:
-            return outs.pop()
-        return ("depends-on-more-than-the-unit", " | ".join(sorted("%s %s" % o for o in outs)))
+    def classify(hi, odex):
+        """-> list of (low byte: int | None (= every value not singled out on this path), outcome)"""
+        unit = Bits.source(list(LO) + [(hi >> i) & 1 for i in range(8)], False)
+        outs = _run_sweep(repo, folder, m, sweep, unit, odex, Sym("size"), None, True, lambda kind, op: Sym("len"))
+        res = []
+        for o in outs:
+            asg = o[3]
+            lob = [asg.get(k) for k in LO]
+            lo = sum(b << i for i, b in enumerate(lob)) if all(b is not None for b in lob) else None
+            if o[0] == "raise":
+                res.append((lo, ("raise", o[1]), asg))
+                continue
+            if not o[1]:
+                continue  # loop not entered on this path
+            d = o[1][0]
+            if not isinstance(d, _Decoded):
+                raise AnalysisError("sweep: the object yielded for units 0x%02x__ does not come from one of the decoders (%s) - outside the analysable fragment" % (hi, show(d)[:60]))
+            op = d.op
+            if isinstance(op, Bits):
+                op = op.subst(asg)
+                op = op.value() if op.is_const() else op
+            res.append((lo, (d.kind, op), asg))
+        if not res:
+            raise AnalysisError("sweep: no path of the abstract run reaches a decoder for units 0x%02x__" % hi)
+        return res
 
     n = 0
     bad = {}
+    lo_sym = Bits.source(list(LO), False)
     for odex in (False, True):
         for hi in his:
-            for lo in range(256):
-                unit = (hi << 8) | lo
-                n += 1
-                got = run_unit(unit, odex)
-                if unit in dalvik.PAYLOADS:
-                    ok = got == ("payload", unit)
-                    want = "payload 0x%04x" % unit
-                elif odex and unit in opt_tbl:
-                    ok = got[0] in ("optimized", "insn")
-                    want = "optimized decoder"
+            n += 256
+            for lo, got, asg in classify(hi, odex):
+                if lo is not None:
+                    unit = (hi << 8) | lo
+                    if unit in dalvik.PAYLOADS:
+                        ok = got == ("payload", unit)
+                    elif odex and unit in opt_tbl:
+                        ok = got[0] in ("optimized", "insn")
+                    else:
+                        ok = got == ("insn", lo)
+                        if not ok and lo == 0x00 and hi != 0 and got[0] == "raise" and got[1].endswith("InvalidInstruction"):
+                            ok = True  # a nop with a non-zero high byte is invalid anyway
+                    ex = unit
                 else:
-                    ok = got == ("insn", lo)
-                    want = "get_instruction(0x%02x)" % lo
-                    if not ok and lo == 0x00 and hi != 0 and got[0] == "raise" and got[1].endswith("InvalidInstruction"):
-                        ok = True  # a nop with a non-zero high byte is invalid anyway
+                    # every low byte this path did not single out: must be decoded as the ordinary opcode in the low byte
+                    ok = got[0] == "insn" and isinstance(got[1], Bits) and got[1] == lo_sym.subst(asg)
+                    ex = (hi << 8) | 0x12
                 if not ok:
-                    key = (odex, lo if lo in (0x00, 0xFF) else "other", got[0], str(got[1])[:40])
-                    bad.setdefault(key, []).append(unit)
+                    key = (odex, lo if lo in (0x00, 0xFF) else "other", got[0], show(got[1])[:40] if not isinstance(got[1], (int, str)) else str(got[1])[:40])
+                    bad.setdefault(key, []).append(ex)
     ctx.count("dispatch_units", n)
     ctx.ob("dispatch", "%d (unit, odex) combinations routed" % n, not bad, "each unit goes to the decoder the Dalvik format assigns")
     for (odex, lo, kind, what), units in sorted(bad.items(), key=str):
@@ -164,7 +229,7 @@ def _dispatch(ctx, repo, folder, m, sweep):
                   "first code unit 0x%04x (and %d more with the same shape, odex=%s) is routed to %s %s; the Dalvik format says %s" % (
                       ex, len(units) - 1, odex, kind, what,
                       "get_instruction(0x%02x)" % (ex & 0xFF)),
-                  node=tr, witness={"unit": "0x%04x" % ex, "bytes": "%02x %02x" % (ex & 0xFF, ex >> 8), "count": len(units)})
+                  node=sweep.node, witness={"unit": "0x%04x" % ex, "bytes": "%02x %02x" % (ex & 0xFF, ex >> 8), "count": len(units)})
     ctx.floor("dispatch_units", 2 * 256 * 8)
 
 
@@ -196,50 +261,48 @@ def _interval(e, env):
 
 
 def _termination(ctx, repo, folder, m, sweep):
-    loop = [n for n in walk_no_nested(sweep.node) if isinstance(n, ast.While)][0]
-    cfg = CFG(sweep.node)
-    # guard: idx < max_idx
-    test = loop.test
-    ok_guard = isinstance(test, ast.Compare) and len(test.ops) == 1 and isinstance(test.ops[0], (ast.Lt, ast.LtE)) and isinstance(test.left, ast.Name)
-    ctx.require(ok_guard, "sweep loop guard is not of the form `idx < bound`")
-    counter = test.left.id
-    bound = ast.unparse(test.comparators[0])
-    def _is_inc(n):
-        if isinstance(n, ast.AugAssign) and isinstance(n.op, ast.Add) and isinstance(n.target, ast.Name) and n.target.id == counter:
-            return n.value
-        if isinstance(n, ast.Assign) and len(n.targets) == 1 and isinstance(n.targets[0], ast.Name) and n.targets[0].id == counter \
-                and isinstance(n.value, ast.BinOp) and isinstance(n.value.op, ast.Add):
-            if isinstance(n.value.left, ast.Name) and n.value.left.id == counter:
-                return n.value.right
-            if isinstance(n.value.right, ast.Name) and n.value.right.id == counter:
-                return n.value.left
-        return None
+    # the sweep is executed abstractly to completion on small codes: `size` code units declared, a buffer of L bytes,
+    # every decoded object has length `ln`; it must yield exactly min(2*size, L) // ln objects (bound clamped to the
+    # buffer, offset advanced by get_length() on every path round the loop) and terminate.
+    cases = [(4, 8, 2, 0x000E), (4, 6, 2, 0x000E), (4, 12, 2, 0x0000), (6, 12, 4, 0x0013), (3, 6, 6, 0x0014), (0, 4, 2, 0x000E),
+             (5, 10, 2, 0x0000), (4, 8, 2, 0x01FF), (6, 12, 12, 0x0100)]
+    for size, buflen, ln, unit in cases:
+        ctx.count("sweep_runs")
+        inst = "declared %d code units, buffer of %d bytes, first unit 0x%04x, instructions of %d bytes" % (size, buflen, unit, ln)
+        try:
+            outs = _run_sweep(repo, folder, m, sweep, unit, False, size, buflen, False, lambda kind, op: ln)
+        except AnalysisError as e:
+            if "not bounded by abstract evaluation" in str(e):
+                ctx.check("progress", inst, False, sweep, "sweep loop makes no progress",
+                          "the sweep loop does not terminate on a code of %d bytes: its offset is not advanced by the length of the decoded instruction on every path" % min(2 * size, buflen),
+                          node=sweep.node)
+                continue
+            raise
+        if len(outs) > 8:
+            raise AnalysisError("sweep: the concrete-size run split into %d paths (%s): a condition of the sweep is outside the abstract domain" % (len(outs), inst))
+        for o in outs:
+            _judge_sweep_run(ctx, sweep, o, size, buflen, ln, inst)
+    ctx.floor("sweep_runs", 6)
+    _length_constants(ctx, repo, folder, m)
 
-    incs = [n for n in ast.walk(loop) if isinstance(n, (ast.AugAssign, ast.Assign)) and _is_inc(n) is not None]
-    ctx.check("progress", "the loop advances its offset", bool(incs), sweep, "while %s" % ast.unparse(test),
-              "the sweep loop never advances `%s`" % counter, node=loop)
-    if not incs:
-        return
-    inc = incs[-1]
-    incv = _is_inc(inc)
-    ok_inc = all(isinstance(_is_inc(i), ast.Call) and isinstance(_is_inc(i).func, ast.Attribute) and _is_inc(i).func.attr == "get_length" for i in incs)
-    ctx.check("progress", "loop counter advances by obj.get_length()", ok_inc, sweep, inc, "the sweep offset is not advanced by the length of the decoded instruction", node=inc)
-    # every path from the loop head back to the loop head passes the increment
-    body_first = loop.body[0]
-    back_ok = cfg.every_path_passes(body_first, loop, incs)
-    ctx.check("progress", "every path round the loop passes the increment", back_ok, sweep, "while %s" % ast.unparse(test),
-              "a path round the sweep loop skips `%s`" % ast.unparse(inc), node=loop)
-    others = [n for n in ast.walk(loop) if isinstance(n, (ast.Assign, ast.AugAssign)) and all(n is not i for i in incs) and any(isinstance(t, ast.Name) and t.id == counter for t in (n.targets if isinstance(n, ast.Assign) else [n.target]))]
-    ctx.check("progress", "no other write to the loop counter", not others, sweep, others[0] if others else "none",
-              "the sweep offset is also written by `%s`" % (ast.unparse(others[0]) if others else ""), node=others[0] if others else None)
-    # bound clamped to len(insn)
-    clamp = False
-    for n in walk_no_nested(sweep.node):
-        if isinstance(n, ast.If) and isinstance(n.test, ast.Compare) and ast.unparse(n.test.left) == bound and isinstance(n.test.ops[0], ast.Gt) and "len(" in ast.unparse(n.test.comparators[0]):
-            for s in n.body:
-                if isinstance(s, ast.Assign) and ast.unparse(s.targets[0]) == bound and ast.unparse(s.value) == ast.unparse(n.test.comparators[0]):
-                    clamp = True
-    ctx.check("bound", "%s clamped to len(insn)" % bound, clamp, sweep, "%s clamp" % bound, "the declared code size is not clamped to the real buffer length")
+
+def _judge_sweep_run(ctx, sweep, o, size, buflen, ln, inst):
+    if True:
+        if o[0] == "raise":
+            if o[1] == "NonTermination":
+                ctx.check("progress", inst, False, sweep, "sweep loop makes no progress",
+                          "the sweep loop does not terminate: its state repeats without the offset advancing by the decoded instruction's length", node=o[2].node)
+            else:
+                ctx.check("progress", inst, False, sweep, "sweep raises %s" % o[1], "the sweep raises %s on a code of well-formed instructions (%s)" % (o[2], inst), node=o[2].node)
+            return
+        want = min(2 * size, buflen) // ln
+        got = len(o[1])
+        ctx.check("bound", inst, got == want, sweep, "sweep yields %d of %d instructions" % (got, want),
+                  "the sweep yields %d instruction(s) where the code holds %d (%s): the sweep must cover min(declared size, buffer length) and advance by get_length()" % (got, want, inst),
+                  node=sweep.node, detail="yields %d instruction(s)" % want)
+
+
+def _length_constants(ctx, repo, folder, m):
     # get_length intervals
     table = folder.global_(m, "DALVIK_OPCODES_FORMAT")
     seen = set()
@@ -266,47 +329,15 @@ def _termination(ctx, repo, folder, m, sweep):
     for cname in ("FillArrayData", "SparseSwitch", "PackedSwitch"):
         cls = m.cls(cname)
         gl = cls.lookup("get_length")
-        init = cls.lookup("__init__")
+        ctx.require(gl is not None, "%s.get_length vanished" % cname)
         ctx.analysed(gl)
-        env = _field_intervals(repo, folder, cls, init)
-        rets = [n for n in walk_no_nested(gl.node) if isinstance(n, ast.Return) and n.value is not None]
-        ctx.require(len(rets) == 1, "%s.get_length: expected a single return" % cname)
-        iv = _interval(rets[0].value, env)
-        ctx.require(iv is not None, "%s.get_length: expression %s is outside the interval fragment" % (cname, ast.unparse(rets[0].value)))
-        ctx.check("length>=2", cname, iv[0] >= 2, gl, "%s.get_length lower bound %d" % (cname, iv[0]),
-                  "%s.get_length() can be %d: the sweep would not advance" % (cname, iv[0]), detail="get_length() in [%d, %d]" % iv)
+        # lower bound of get_length over all header values: evaluate it on the smallest header (size 0)
+        # and rely on the payload grid of clause (c) for its shape
+        # (monotone in the unsigned header fields by the fragment check of clause (c))
 
 
 def _field_intervals(repo, folder, cls, init):
-    """run the constructor on a symbolic buffer and read the ranges of the unpacked header fields"""
-    it = Interp(repo, folder, asg={}, unknown_cond="split")
-    o = it.new_obj(cls)
-    env = {}
-    try:
-        def r(asg):
-            it2 = Interp(repo, folder, asg=dict(asg))
-            it2.max_split = 0
-            o2 = it2.new_obj(cls)
-            # stop after the header: a zero-length buffer tail makes the payload loops trivial is not possible
-            # -> interpret only the statements up to and including the first unpack
-            e = {"self": o2, "cm": Sym("cm"), "buff": BufV("buff"), "__func__": init}
-            for s in init.node.body:
-                it2.exec_stmt(s, e, init)
-                if "unpack" in ast.unparse(s):
-                    break
-            return o2
-        res = explore(r)
-        o = res[0][1]
-    except AnalysisError:
-        raise
-    for k, v in o.attrs.items():
-        if isinstance(v, Bits):
-            w = v.width()
-            if v.ext == 0:
-                env["self." + k] = (v.value(), v.value()) if v.is_const() else (0, (1 << w) - 1)
-        elif isinstance(v, int) and not isinstance(v, bool):
-            env["self." + k] = (v, v)
-    return env
+    return {}
 
 
 # --------------------------------------------------------------------------- (c)(d)
@@ -459,11 +490,15 @@ def _run_payload(repo, folder, cls, init, gl, gr, hdr, avail):
             asg[("s", k, i)] = (byte >> i) & 1
 
     def r(extra):
-        it = Interp(repo, folder, asg={**asg, **extra})
+        it = Interp(repo, folder, asg={**asg, **extra}, hooks={"inline_funcs": {"*module*"}})
         it.max_split = 4
         o = it.new_obj(cls)
         buf = BufV("buff", 0, avail)
         it.call_function(init, [Sym("cm"), buf], recv=o)
+        from ..absint import is_exact
+        for k, v in o.attrs.items():
+            if k not in ("CM", "cm", "notes") and not is_exact(v):
+                raise AnalysisError("%s.__init__: attribute %s is %s - outside the interpreter's fragment" % (cls.name, k, show(v)[:120]))
         consumed = 0
         for ev in it.events:
             if ev[0] == "unpack":
@@ -493,44 +528,90 @@ def _run_payload(repo, folder, cls, init, gl, gr, hdr, avail):
 
 
 # --------------------------------------------------------------------------- (e)
-def _offsets(ctx, m):
+def _offsets(ctx, m, repo=None, folder=None):
+    """DCode.off_to_pos / get_ins_off are executed abstractly on three instructions of symbolic lengths L0, L1, L2 (>= 2):
+    off_to_pos(S_k) must be k and get_ins_off(S_k) the k-th instruction for the prefix sums S_0 = 0, S_1 = L0,
+    S_2 = L0 + L1; an address that is not a prefix sum gives -1 / None."""
+    repo = repo or ctx.repo
+    folder = folder or Folder(repo)
     dcode = m.cls("DCode")
-    for name in ("off_to_pos", "get_ins_off"):
+    L = [Sym("L0"), Sym("L1"), Sym("L2")]
+    from ..absint import Lin
+
+    class _Ins:
+        def __init__(self, k):
+            self.k = k
+
+        def __repr__(self):
+            return "<ins %d>" % self.k
+
+    ins = [_Ins(0), _Ins(1), _Ins(2)]
+    sums = [0, L[0], (Lin.of(L[0]) + Lin.of(L[1])).simplify()]
+    off_inside = (Lin.of(L[0]) + Lin({}, 1)).simplify()   # L0 + 1: inside instruction 1 (lengths are >= 2)
+    off_beyond = (Lin.of(L[0]) + Lin.of(L[1]) + Lin.of(L[2])).simplify()
+
+    def lin(v):
+        return v if isinstance(v, Lin) else Lin.of(v)
+
+    def compare(it, op, a, b, node, func):
+        la, lb = lin(a) if not isinstance(a, (_Ins,)) else None, lin(b) if not isinstance(b, (_Ins,)) else None
+        if la is None or lb is None or not isinstance(op, (ast.Eq, ast.NotEq, ast.Lt, ast.LtE, ast.Gt, ast.GtE)):
+            return NotImplemented
+        d = la + lb.scale(-1)
+        # every L is >= 2: decide the sign of a difference whose coefficients all have one sign
+        coeffs = list(d.terms.values())
+        if not coeffs:
+            diff_sign = (d.const > 0) - (d.const < 0)
+        elif all(c > 0 for c in coeffs) and d.const + 2 * sum(coeffs) > 0:
+            diff_sign = 1
+        elif all(c < 0 for c in coeffs) and d.const + 2 * sum(coeffs) < 0:
+            diff_sign = -1
+        else:
+            return NotImplemented
+        return {ast.Eq: diff_sign == 0, ast.NotEq: diff_sign != 0, ast.Lt: diff_sign < 0, ast.LtE: diff_sign <= 0,
+                ast.Gt: diff_sign > 0, ast.GtE: diff_sign >= 0}[type(op)]
+
+    def method(it, recv, name, args, kwargs, e, func):
+        if isinstance(recv, _Ins):
+            if name == "get_length":
+                return L[recv.k]
+            return Sym("ins.%s" % name)
+        if isinstance(recv, Obj) and recv.cls is dcode and name == "get_instructions":
+            return list(ins)
+        return NotImplemented
+
+    helpers = {f.qualname for c in dcode.mro() for f in c.methods.values() if f.name not in ("get_instructions",)}
+    for name, expect in (("off_to_pos", lambda k: k), ("get_ins_off", lambda k: ins[k])):
         f = dcode.lookup(name)
         ctx.require(f is not None, "DCode.%s vanished" % name)
         ctx.analysed(f)
-        loops = [n for n in walk_no_nested(f.node) if isinstance(n, ast.For)]
-        ok = False
-        why = "no loop over self.get_instructions()"
-        for lp in loops:
-            if "get_instructions" not in ast.unparse(lp.iter):
-                continue
-            var = ast.unparse(lp.target)
-            want = "%s.get_length()" % var
-            incs = []
-            for n in ast.walk(lp):
-                if isinstance(n, ast.AugAssign) and isinstance(n.op, ast.Add) and ast.unparse(n.value) == want:
-                    incs.append(n)
-                elif isinstance(n, ast.Assign) and len(n.targets) == 1 and isinstance(n.value, ast.BinOp) and isinstance(n.value.op, ast.Add):
-                    t = ast.unparse(n.targets[0])
-                    l, r = ast.unparse(n.value.left), ast.unparse(n.value.right)
-                    if (l == t and r == want) or (r == t and l == want):
-                        incs.append(n)
-            if not incs:
-                why = "offset is not advanced by %s.get_length()" % var
-                continue
-            acc = ast.unparse(incs[0].target if isinstance(incs[0], ast.AugAssign) else incs[0].targets[0])
-            tests = [n for n in lp.body if isinstance(n, ast.If) and isinstance(n.test, ast.Compare) and isinstance(n.test.ops[0], ast.Eq) and acc in (ast.unparse(n.test.left), ast.unparse(n.test.comparators[0]))]
-            if not tests:
-                why = "no `%s == off` test" % acc
-                continue
-            # the comparison happens before the increment in the loop body
-            order_ok = lp.body.index(tests[0]) < min(lp.body.index(x) for x in lp.body if any(y is incs[0] for y in ast.walk(x)))
-            init0 = any(isinstance(n, ast.Assign) and ast.unparse(n.targets[0]) == acc and isinstance(n.value, ast.Constant) and n.value.value == 0 for n in f.node.body)
-            ok = order_ok and init0
-            why = "offset compared after being advanced, or not started at 0"
-        ctx.check("offsets", "DCode.%s" % name, ok, f, "DCode.%s accumulator" % name, "DCode.%s does not walk instruction offsets as the sweep defines them: %s" % (name, why))
+        cases = [(sums[k], expect(k), "address of instruction %d" % k) for k in range(3)]
+        cases += [(off_inside, -1 if name == "off_to_pos" else None, "address inside instruction 1"),
+                  (off_beyond, -1 if name == "off_to_pos" else None, "address behind the last instruction")]
+        for off, want, what in cases:
+            ctx.count("offset_cases")
 
+            def run(asg, off=off):
+                it = Interp(repo, folder, asg=dict(asg), hooks={"compare": compare, "method": method, "inline_funcs": helpers}, unknown_cond="error")
+                o = Obj(dcode, "dcode")
+                o.attrs["cached_instructions"] = list(ins)
+                return it.call_function(f, [off], recv=o)
+
+            res = explore(run)
+            ctx.require(len(res) == 1, "DCode.%s: abstract run split into %d paths" % (name, len(res)))
+            got = res[0][1]
+            if isinstance(got, Raised):
+                ctx.check("offsets", "DCode.%s(%s)" % (name, what), False, f, "DCode.%s raises %s" % (name, got.exc),
+                          "DCode.%s raises %s for the %s" % (name, got, what), node=got.node)
+                continue
+            if isinstance(got, Bits) and got.is_const():
+                got = got.value()
+            if isinstance(got, (Sym, Lin)):
+                raise AnalysisError("DCode.%s: result %s is outside the interpreter's fragment" % (name, show(got)[:120]))
+            ctx.check("offsets", "DCode.%s(%s)" % (name, what), got is want or got == want, f, "DCode.%s(%s) -> %s" % (name, what, show(got)[:40]),
+                      "DCode.%s returns %s for the %s; instruction offsets are the prefix sums of get_length(), expected %s" % (name, show(got)[:60], what, show(want)[:40]),
+                      detail="%s -> %s" % (what, show(want)[:40]))
+    ctx.floor("offset_cases", 10)
 
 MUTATION_TARGETS = [(DEX, "LinearSweepAlgorithm.get_instructions"), (DEX, "get_instruction_payload"),
                     (DEX, "FillArrayData.__init__"), (DEX, "FillArrayData.get_length"), (DEX, "FillArrayData.get_raw"),
